@@ -120,19 +120,26 @@ def check_window(ctx, mon_state, rng, width, channels, data, uc):
         elif seen_false:
             ctx.violation("not-monotone-in-threshold", {"case": case, "results": results})
             return
-    # thresholds given as NumPy scalars of lower precision mean exactly their own value
-    if impl_db is not None and impl_db > -199:
+    # thresholds given as NumPy scalars of lower precision mean exactly their own value.  Built around the implementation's own
+    # observed energy when it can be observed (then "exactly at" is decidable), around the model's otherwise
+    base = impl_db if impl_db is not None else model_db
+    if base > -199:
         import numpy as np
 
         for ty in (np.float32, np.float16, np.float64):
-            for cand in (impl_db, impl_db + 1e-4, impl_db - 1e-4):
+            for cand in (base, base + 1e-4, base - 1e-4, base + 0.37, base - 0.37):
                 thr_np = ty(cand)
-                if not np.isfinite(thr_np) or abs(float(thr_np) - model_db) <= 1e-9 and float(thr_np) != impl_db:
+                t = float(thr_np)
+                if not np.isfinite(thr_np):
                     continue
+                in_band = abs(t - model_db) <= 1e-9
+                if in_band and (impl_db is None or t != impl_db):
+                    continue  # undecidable without the implementation's own value
                 ctx.count("numpy_scalar_thresholds_checked")
                 r = verdict(AudioEnergyValidator(thr_np, width, channels, use_channel=uc), data)
-                if r != (impl_db >= float(thr_np)):
-                    ctx.violation("numpy-scalar-threshold-compared-in-lower-precision", {"case": case, "thr": float(thr_np), "thr_type": ty.__name__, "impl_db": impl_db, "got": r})
+                want = (impl_db >= t) if impl_db is not None and in_band else (model_db >= t)
+                if r != want:
+                    ctx.violation("numpy-scalar-threshold-compared-in-lower-precision", {"case": case, "thr": t, "thr_type": ty.__name__, "impl_db": impl_db, "model_db": model_db, "got": r})
                     return
     # boundary against the implementation's own energy
     if impl_db is not None and impl_db > -199:
